@@ -128,6 +128,13 @@ pub struct Sim {
     pub mut_delivered: Vec<BTreeMap<u32, u32>>,
     pub tick_fired: Vec<BTreeMap<u32, u32>>,
     pub tick_log_pos: Vec<usize>,
+    /// restrict the convergence oracle to these clients (C06: the attacker's own view is its own business)
+    pub converge_only: Option<Vec<usize>>,
+    /// largest single allocation request during the last `App::update` of the server (C06)
+    pub last_update_max_alloc: usize,
+    pub drain_logs: bool,
+    /// last client-event sequence number seen by server logic per sender
+    pub last_from: BTreeMap<Entity, u32>,
 }
 
 /// 8 secret bytes derived from the write id (high bit set in every byte), followed by padding.
@@ -209,6 +216,10 @@ impl Sim {
             mut_delivered: vec![BTreeMap::new(); n],
             tick_fired: vec![BTreeMap::new(); n],
             tick_log_pos: vec![0; n],
+            converge_only: None,
+            last_update_max_alloc: 0,
+            drain_logs: false,
+            last_from: BTreeMap::new(),
         };
         sim.warm_up();
         sim
@@ -1094,7 +1105,16 @@ impl Sim {
         if tick {
             self.server.world_mut().resource_mut::<ServerTick>().increment();
         }
+        crate::alloc::reset_max();
+        let dbg = std::env::var("VH_ALLOC_BT").is_ok();
+        if dbg {
+            crate::alloc::DEBUG_BT.store(1, std::sync::atomic::Ordering::Relaxed);
+        }
         self.server.update();
+        if dbg {
+            crate::alloc::DEBUG_BT.store(0, std::sync::atomic::Ordering::Relaxed);
+        }
+        self.last_update_max_alloc = crate::alloc::max_request();
         self.sframes += 1;
         let t = self.tick();
         let replicated = self.running && t != before;
